@@ -4,6 +4,21 @@ Fail-closed: a construct outside the grammar (DESIGN.md appendix A) makes the it
 untranslatable; nothing is emitted for it (so every proof that mentions it stops compiling) and the
 error, with source location, is returned to the driver.
 
+Class grammar (functions/*.py, operators/*.py), beyond DESIGN.md appendix A.1 / A.2:
+  * formula helpers (set_*): before `constraint = <comparison>` a sequence of named intermediates
+    `name = <pure DSL expression>` (sort scalar / point / expression, built from the parameters, self.<param>,
+    earlier names and the operators of A.1) is accepted and translated by SUBSTITUTION: the generated term is the one
+    of the formula with every name inlined, so Gen/Classes.v does not move.  Rejected: a name assigned twice, a name
+    equal to a parameter of the helper / `self` / `constraint` / a class-parameter name (L, mu, ...), tuple or
+    attribute / subscript targets, augmented assignments, an intermediate that is a comparison, any statement after
+    the constraint other than `return constraint`, any call.
+  * the automatic stationary point: `if self.list_of_stationary_points == list():` or `== []:`.
+  * BlockSmoothConvexFunction: string templates may be written "..{}..".format(a, b) or as the f-string with the
+    same rendering (plain names, no conversion / format spec); the block loops may range over
+    `range(self.partition.get_nb_blocks())` or `range(<local>)` where the local is assigned exactly once, at top
+    level, from that call.
+Everything else stays fail-closed.
+
 Generated files (coq/Gen/, never committed):
   Classes.v   every class formula (cterm / xterm) and every add_class_constraints plan
   Steps.v     the 8 primitive steps as straight-line programs
@@ -216,15 +231,34 @@ def translate_formula_method(fn, path):
         env.update(positional_env(args[3:], False))
     body = strip_doc(fn.body)
     result = None
+    bound = set(env) | {"self", "constraint"}
     for k, stmt in enumerate(body):
-        if stationary_local(stmt, env, path):
+        if result is None and isinstance(stmt, ast.Assign) and len(stmt.targets) == 1 \
+                and isinstance(stmt.targets[0], (ast.Tuple, ast.Name)) and stationary_local(stmt, env, path):
+            bound |= set(env)
             continue
         if isinstance(stmt, ast.Assign) and len(stmt.targets) == 1 and isinstance(stmt.targets[0], ast.Name) \
                 and stmt.targets[0].id == "constraint":
+            if result is not None:
+                raise Untranslatable(stmt, "constraint assigned twice", path)
             s, t = Tr(env, path).tr(stmt.value)
             if s != "C":
                 raise Untranslatable(stmt, "constraint is not a comparison", path)
             result = t
+            continue
+        # a named intermediate  name = <pure DSL expression>  (scalar, point or expression; the operators build new
+        # objects and never mutate their operands, so the value of the name is the value of the expression at every
+        # use): translated by SUBSTITUTION.  Each name is assigned once, before the constraint, and shadows nothing.
+        if result is None and isinstance(stmt, ast.Assign) and len(stmt.targets) == 1 \
+                and isinstance(stmt.targets[0], ast.Name):
+            nm = stmt.targets[0].id
+            if nm in bound or nm in PARAMS or nm == "_":
+                raise Untranslatable(stmt, "local %s re-assigned or shadowing a parameter" % nm, path)
+            s, t = Tr(env, path).tr(stmt.value)
+            if s not in ("S", "P", "X"):
+                raise Untranslatable(stmt, "a named intermediate must be a scalar, a point or an expression", path)
+            env[nm] = (s, t)
+            bound.add(nm)
             continue
         if isinstance(stmt, ast.Return) and isinstance(stmt.value, ast.Name) and stmt.value.id == "constraint" \
                 and k == len(body) - 1 and result is not None:
@@ -338,8 +372,10 @@ def translate_plan(cls, formulas, path):
             # if self.list_of_stationary_points == list(): self.stationary_point()
             if isinstance(t, ast.Compare) and len(t.ops) == 1 and isinstance(t.ops[0], ast.Eq) \
                     and is_self_attr(t.left, "list_of_stationary_points") \
-                    and isinstance(t.comparators[0], ast.Call) and isinstance(t.comparators[0].func, ast.Name) \
-                    and t.comparators[0].func.id == "list" and not t.comparators[0].args \
+                    and ((isinstance(t.comparators[0], ast.Call) and isinstance(t.comparators[0].func, ast.Name)
+                          and t.comparators[0].func.id == "list" and not t.comparators[0].args
+                          and not t.comparators[0].keywords)
+                         or (isinstance(t.comparators[0], ast.List) and not t.comparators[0].elts)) \
                     and len(stmt.body) == 1 and isinstance(stmt.body[0], ast.Expr) \
                     and isinstance(stmt.body[0].value, ast.Call) and is_self_attr(stmt.body[0].value.func, "stationary_point") \
                     and not stmt.body[0].value.args and not stmt.body[0].value.keywords:
@@ -508,6 +544,33 @@ def translate_classes():
     return "\n".join(out) + "\n", status
 
 
+def fmt_template(n):
+    """"IC_{}_{}".format(a, b)  |  f"IC_{a}_{b}"  ->  ("IC_{}_{}", ["a", "b"]); None for anything else
+    (arguments must be plain names; no conversion, no format spec, no literal braces)"""
+    if isinstance(n, ast.Call) and isinstance(n.func, ast.Attribute) and n.func.attr == "format" \
+            and isinstance(n.func.value, ast.Constant) and isinstance(n.func.value.value, str) \
+            and not n.keywords and all(isinstance(a, ast.Name) for a in n.args):
+        tpl = n.func.value.value
+        if tpl.replace("{}", "").count("{") or tpl.replace("{}", "").count("}") or tpl.count("{}") != len(n.args):
+            return None
+        return tpl, [a.id for a in n.args]
+    if isinstance(n, ast.JoinedStr):
+        tpl, args = "", []
+        for v in n.values:
+            if isinstance(v, ast.Constant) and isinstance(v.value, str):
+                if "{" in v.value or "}" in v.value:
+                    return None
+                tpl += v.value
+            elif isinstance(v, ast.FormattedValue) and v.conversion == -1 and v.format_spec is None \
+                    and isinstance(v.value, ast.Name):
+                tpl += "{}"
+                args.append(v.value.id)
+            else:
+                return None
+        return tpl, args
+    return None
+
+
 def translate_block_smooth(cls, path):
     """BlockSmoothConvexFunction hand-rolls its loops: the loop nest is checked statement by statement and
     emitted as the plan item [BlockPairs <condition-name prefix> <formula>]; the formula is extracted."""
@@ -535,12 +598,9 @@ def translate_block_smooth(cls, path):
         ok2 = (isinstance(b, ast.If) and not b.orelse and isinstance(b.test, ast.Compare) and len(b.test.ops) == 1
                and isinstance(b.test.ops[0], ast.Is) and isinstance(b.test.left, ast.Name) and b.test.left.id == idname
                and isinstance(b.test.comparators[0], ast.Constant) and b.test.comparators[0].value is None
-               and len(b.body) == 1 and isinstance(b.body[0], ast.Assign) and isinstance(b.body[0].targets[0], ast.Name)
-               and b.body[0].targets[0].id == idname and isinstance(b.body[0].value, ast.Call)
-               and isinstance(b.body[0].value.func, ast.Attribute) and b.body[0].value.func.attr == "format"
-               and isinstance(b.body[0].value.func.value, ast.Constant) and b.body[0].value.func.value.value == "Point_{}"
-               and len(b.body[0].value.args) == 1 and isinstance(b.body[0].value.args[0], ast.Name)
-               and b.body[0].value.args[0].id == ivar)
+               and len(b.body) == 1 and isinstance(b.body[0], ast.Assign) and len(b.body[0].targets) == 1
+               and isinstance(b.body[0].targets[0], ast.Name) and b.body[0].targets[0].id == idname
+               and fmt_template(b.body[0].value) == ("Point_{}", [ivar]))
         return ok1 and ok2
 
     def table_append(s, kvar, ivar, what):
@@ -558,17 +618,38 @@ def translate_block_smooth(cls, path):
             return isinstance(a, ast.Constant) and a.value == 0 and not isinstance(a.value, bool)
         return isinstance(a, ast.Name) and a.id == what
 
+    def nb_blocks_call(a):
+        return (isinstance(a, ast.Call) and isinstance(a.func, ast.Attribute) and a.func.attr == "get_nb_blocks"
+                and is_self_attr(a.func.value, "partition") and not a.args and not a.keywords)
+
+    # locals holding the number of blocks: assigned exactly once, at top level, from self.partition.get_nb_blocks()
+    assigned = {}
+    for n in ast.walk(fn):
+        tgts = []
+        if isinstance(n, ast.Assign):
+            tgts = n.targets
+        elif isinstance(n, (ast.AugAssign, ast.AnnAssign)):
+            tgts = [n.target]
+        for t in tgts:
+            for nm in ast.walk(t):
+                if isinstance(nm, ast.Name):
+                    assigned.setdefault(nm.id, []).append(n)
+    nb_locals = set()
+    for stmt in body:
+        if isinstance(stmt, ast.Assign) and len(stmt.targets) == 1 and isinstance(stmt.targets[0], ast.Name) \
+                and nb_blocks_call(stmt.value) and assigned.get(stmt.targets[0].id) == [stmt]:
+            nb_locals.add(stmt.targets[0].id)
+
     def range_blocks(f):
-        """for k in range(self.partition.get_nb_blocks())  |  for k in range(nb_blocks)"""
+        """for k in range(self.partition.get_nb_blocks())  |  for k in range(<local assigned once from that call>)"""
         if not (isinstance(f, ast.For) and not f.orelse and isinstance(f.target, ast.Name)
                 and isinstance(f.iter, ast.Call) and isinstance(f.iter.func, ast.Name) and f.iter.func.id == "range"
-                and len(f.iter.args) == 1):
+                and len(f.iter.args) == 1 and not f.iter.keywords):
             return False
         a = f.iter.args[0]
-        if isinstance(a, ast.Name) and a.id == "nb_blocks":
-            return True
-        return (isinstance(a, ast.Call) and isinstance(a.func, ast.Attribute) and a.func.attr == "get_nb_blocks"
-                and is_self_attr(a.func.value, "partition") and not a.args)
+        if isinstance(a, ast.Name):
+            return a.id in nb_locals
+        return nb_blocks_call(a)
 
     fors = [s for s in body if isinstance(s, ast.For) and enum_points(s)]
     if len(fors) != 1:
@@ -588,11 +669,10 @@ def translate_block_smooth(cls, path):
             if isinstance(n, ast.Assign) and len(n.targets) == 1 and isinstance(n.targets[0], ast.Subscript) \
                     and is_self_attr(n.targets[0].value, "tables_of_constraints"):
                 k = n.targets[0].slice
-                if not (isinstance(k, ast.Call) and isinstance(k.func, ast.Attribute) and k.func.attr == "format"
-                        and isinstance(k.func.value, ast.Constant) and isinstance(k.func.value.value, str)
-                        and len(k.args) == 1 and isinstance(k.args[0], ast.Name) and key_fmt is None):
+                ft = fmt_template(k)
+                if ft is None or len(ft[1]) != 1 or key_fmt is not None:
                     raise Untranslatable(n, "unsupported table key", path)
-                key_fmt = k.func.value.value
+                key_fmt = ft[0]
     iv, pv = [e.id for e in outer.target.elts]
     if len(outer.body) != 4:
         raise Untranslatable(outer, "outer loop body: unpack, point id (2 statements), inner loop", path)
@@ -649,12 +729,11 @@ def translate_block_smooth(cls, path):
     c = s_name.value if isinstance(s_name, ast.Expr) else None
     if not (isinstance(c, ast.Call) and isinstance(c.func, ast.Attribute) and c.func.attr == "set_name"
             and isinstance(c.func.value, ast.Name) and c.func.value.id == "constraint" and len(c.args) == 1
-            and isinstance(c.args[0], ast.Call) and isinstance(c.args[0].func, ast.Attribute)
-            and c.args[0].func.attr == "format" and isinstance(c.args[0].func.value, ast.Constant)
-            and isinstance(c.args[0].func.value.value, str)):
+            and not c.keywords and fmt_template(c.args[0]) is not None):
         raise Untranslatable(s_name, "expected constraint.set_name(<format>.format(...))", path)
-    m = re.match(r"^IC_\{\}_([A-Za-z0-9_]*)\{\}\(\{\}, \{\}\)$", c.args[0].func.value.value)
-    if not m or [getattr(a, "id", None) for a in c.args[0].args] != ["function_id", kv, "xi_id", "xj_id"]:
+    name_tpl, name_args = fmt_template(c.args[0])
+    m = re.match(r"^IC_\{\}_([A-Za-z0-9_]*)\{\}\(\{\}, \{\}\)$", name_tpl)
+    if not m or name_args != ["function_id", kv, "xi_id", "xj_id"]:
         raise Untranslatable(s_name, "name must be IC_{function_id}_<prefix>{k}({xi_id}, {xj_id})", path)
     prefix = m.group(1)
     if key_fmt != prefix + "{}":
